@@ -40,6 +40,7 @@ func runC02(r *Run) {
 	c02ReusedMessage(r)
 	topoSweep(r, "stream")
 	c02HttpManyStreams(r)
+	c02DemuxLongBurst(r)
 	c02CutMidStream(r)
 	// a long backlog at a caller that is not reading: order and completeness when it finally reads (c05b.go)
 	c05LongBacklog(r)
